@@ -73,6 +73,7 @@ class Prop:
         self.obl = []
         self.lines = []          # VIOLATION / KNOWN-FINDING / UNPROVED-IDENTITY lines
         self.viol = 0
+        self.uf_env = {}         # summary UF name -> callable: how the numeric triage interprets call summaries (the real helper, itself under contract elsewhere)
         self.known = load_known()
         self.known_hit = []
         self.bounded = []
@@ -329,7 +330,19 @@ class Prop:
     def _samples(self, terms, hyps, pool, n):
         syms = E.free_symbols(list(terms) + list(hyps))
         names = [k for k in syms if k != 'pi' and (z3.is_real(syms[k]) or z3.is_int(syms[k]))]
-        ints = {k for k in names if z3.is_int(syms[k]) or any(z3.is_app(h) and h.decl().kind() == z3.Z3_OP_IS_INT and k in E.free_symbols([h]) for h in hyps)}
+        def _says_int(h, k):
+            # is_int(k), or its expanded form k == to_real(to_int(k))
+            if not z3.is_app(h):
+                return False
+            if h.decl().kind() == z3.Z3_OP_IS_INT:
+                return k in E.free_symbols([h])
+            if h.decl().kind() == z3.Z3_OP_EQ and h.num_args() == 2:
+                for a_, b_ in ((h.arg(0), h.arg(1)), (h.arg(1), h.arg(0))):
+                    if z3.is_const(a_) and a_.decl().name() == k and z3.is_app(b_) and b_.decl().kind() == z3.Z3_OP_TO_REAL and b_.num_args() == 1 \
+                            and z3.is_app(b_.arg(0)) and b_.arg(0).decl().kind() == z3.Z3_OP_TO_INT and b_.arg(0).arg(0).eq(a_):
+                        return True
+            return False
+        ints = {k for k in names if z3.is_int(syms[k]) or any(_says_int(h, k) for h in hyps)}
         lo, hi = self._bounds(hyps)
         rng = random.Random(12345)
         envs = [dict(w) for w in pool]
@@ -349,6 +362,8 @@ class Prop:
         for e in envs:
             for k in names:
                 e.setdefault(k, rng.uniform(-2, 2))
+            for k, v in self.uf_env.items():
+                e.setdefault(k, v)
         return names, envs
 
     def formula_compare(self, goal, hyps, pool, n=24):
@@ -376,13 +391,17 @@ class Prop:
         worst = mp.mpf(0)
         where = {}
         ok = 0
+        why = {}
         for env in envs:
             try:
                 if hyps and not all(E.evaluate(h, env) for h in hyps):
+                    why['hypotheses false'] = why.get('hypotheses false', 0) + 1
                     continue
                 a = E.evaluate(code, env, dps=34)
                 b = E.evaluate(spec, env, dps=34)
-            except (ZeroDivisionError, ValueError, KeyError, NotImplementedError, TypeError, OverflowError):
+            except (ZeroDivisionError, ValueError, KeyError, NotImplementedError, TypeError, OverflowError) as ex_:
+                k_ = '%s: %s' % (type(ex_).__name__, str(ex_)[:60])
+                why[k_] = why.get(k_, 0) + 1
                 continue
             if isinstance(a, mp.mpc) or isinstance(b, mp.mpc):
                 continue
@@ -396,7 +415,7 @@ class Prop:
         if ok == 0:
             # which hypotheses the drawn points fail (diagnosis of an unsampled domain; recorded with the obligation)
             cnt = {}
-            for env in (envs[:40] if os.environ.get('VERIF_DEBUG_SAMPLES') == '1' else []):      # slow on large path conditions: on request only
+            for env in (envs[:6] if os.environ.get('VERIF_DEBUG_SAMPLES') == '1' else []):      # slow on large path conditions: on request only
                 for h in hyps:
                     try:
                         v = E.evaluate(h, env)
@@ -405,7 +424,7 @@ class Prop:
                     if v is not True:
                         k_ = str(h).replace('\n', ' ')[:160] + (' [%s]' % v if v is not False else '')
                         cnt[k_] = cnt.get(k_, 0) + 1
-            return None, dict(n=0, drawn=len(envs), hypotheses_failed=sorted(cnt.items(), key=lambda kv: -kv[1])[:4])
+            return None, dict(n=0, drawn=len(envs), rejected=why, hypotheses_failed=sorted(cnt.items(), key=lambda kv: -kv[1])[:4])
         where['n'] = ok
         return worst, where
 
